@@ -282,6 +282,21 @@ pub fn random_input(rng: &mut Rng, sh: Sh) -> Vec<f32> {
     rng.distinct_f32(sh.count(), -1.5, 1.5)
 }
 
+/// Mostly `random_input`; sometimes data on which value-dependent shortcuts would trigger: a small
+/// dyadic palette (equal elements, exact ones, cancelling pairs), all zeros, a constant vector,
+/// tiny values.
+pub fn varied_input(rng: &mut Rng, sh: Sh) -> Vec<f32> {
+    const PALETTE: [f32; 9] = [-2.0, -1.0, -0.5, 0.0, 0.0, 0.5, 1.0, 1.0, 2.0];
+    let n = sh.count();
+    match rng.range(0, 24) {
+        0 | 1 => (0..n).map(|_| *rng.pick(&PALETTE)).collect(),
+        2 => vec![0.0; n],
+        3 => vec![*rng.pick(&[1.0f32, -1.0, 0.5, 0.25]); n],
+        4 => random_input(rng, sh).iter().map(|v| v * 1e-6).collect(),
+        _ => random_input(rng, sh),
+    }
+}
+
 /// A network in which (nearly) every layer input has the same element count, so that skip and
 /// loop connections between many index pairs are well-formed.
 /// kind 0: flat (dense) chain, 1: spatial chain, 2: mixed flat/spatial chain on r*r elements,
